@@ -84,7 +84,7 @@ def gen_cfg(k, nshards, nin, rot, div):
 
 def tlc_cases(ctx):
     th = ctx.tier == 'thorough'
-    nin, div = (3, 1) if th else (1, 12)
+    nin, div = (2, 1) if th else (1, 12)
     nsh = SHARDS if th else 4
 
     def one(k):
@@ -204,6 +204,11 @@ def run(ctx):
     why = collections.Counter(c['out'][0].get('why', '?') for c in kept if not c['core'])
     panics = [e for e in evs if e.get('engine_panic')]
     refbroken = sum(1 for e in evs if any(o['k'] in ('x', 'halt') for o in e.get('gj', [])))
+    # anti-vacuity: the semantics must keep covering what it is claimed to cover, and both fq arms must have run
+    if n_core_tlc < 0.9 * len(ev1):
+        raise Inconclusive('JqCore covers only %d of %d emitted cases' % (n_core_tlc, len(ev1)))
+    if sum(1 for e in evs if 'fq' in e) < 0.8 * len(evs) or sum(1 for e in evs if 'cli' in e) < 30:
+        raise Inconclusive('fq arms did not run on enough cases')
     ctx.cov['programs'] = len({e['prog'] for e in evs})
     ctx.cov['evaluations'] = len(evs)
     ctx.cov['traces_validated_against_impl'] = len(evs)
